@@ -241,7 +241,10 @@ def add_bash_brng():
 
 
 # ================================================================== botp
-OCRA_OK = ["OCRA-1:HOTP-HBELT-8:C-QN08-PHBELT", "OCRA-1:HOTP-HBELT-6:QA10-T1M", "OCRA-1:HOTP-HBELT-8:QH40-S064", "OCRA-1:HOTP-HBELT-4:QN04"]
+OCRA_OK = ["OCRA-1:HOTP-HBELT-8:C-QN08-PHBELT", "OCRA-1:HOTP-HBELT-6:QA10-T1M", "OCRA-1:HOTP-HBELT-8:QH40-S064", "OCRA-1:HOTP-HBELT-4:QN04", "OCRA-1:HOTP-HBELT-8:QN08-S512"]
+# session information longer than the 512 octets this implementation keeps: well-formed by RFC 6287 (three digits), refused here; botp.h does not say with which code,
+# so only "no crash, no overrun" is demanded (the session buffer passed has 999 octets)
+OCRA_NOJ = ["OCRA-1:HOTP-HBELT-8:QN08-S513", "OCRA-1:HOTP-HBELT-8:QN08-S519", "OCRA-1:HOTP-HBELT-8:QN08-S520", "OCRA-1:HOTP-HBELT-8:QN08-S999", "OCRA-1:HOTP-HBELT-8:C-QN08-PHBELT-S600-T1M"]
 # not of the form OCRA-1:HOTP-HBELT-d:[C-]Q[ANH]xx[-P..][-Sxxx][-T..] (RFC 6287, digits 4..9 in this implementation; 3 / 0 are refused everywhere)
 OCRA_BAD = ["", "OCRA-2:HOTP-HBELT-8:QN08", "OCRA-1:HOTP-HBELT-3:QN08", "OCRA-1:HOTP-HBELT-8:QX08", "OCRA-1:HOTP-HBELT-8:QN03", "OCRA-1:HOTP-HBELT-8:QN65", "OCRA-1:HOTP-HBELT-8:QN08-T60S",
             "OCRA-1:HOTP-HBELT-8", "garbage", "OCRA-1:HOTP-HBELT-8:QN08-PMD5", "OCRA-1:HOTP-HBELT-8:QN08-S9"]
@@ -289,6 +292,8 @@ def add_botp():
         return int(s[i + 3:i + 5])
 
     def ocra_expect(v, c):
+        if v["suite"] in OCRA_NOJ:
+            return NOJ
         if v["suite"] in OCRA_BAD:
             return ("ERR_BAD_FORMAT",)
         e = []
@@ -303,7 +308,7 @@ def add_botp():
     def ocra_args(x, c, v):
         # a q_len above 2 * q_max <= 128 is refused from the scalar (documented bound): the buffer is capped
         return [cstr(x, v["suite"]), data(x, c, v["key_len"], "k"), v["key_len"], x.buf((b"12345678" * 17)[:min(v["q_len"], 136)]), v["q_len"],
-                data(x, c, 8, "c"), data(x, c, 64, "p"), data(x, c, 512, "s"), v["t"]]
+                data(x, c, 8, "c"), data(x, c, 64, "p"), data(x, c, 999, "s", 999), v["t"]]
 
     def ocra_rand(x, c, v):
         return "botpOCRARand", [x.out(10)] + ocra_args(x, c, v)
@@ -320,7 +325,7 @@ def add_botp():
                 s = bytes([48 + (s[0] - 48 + 1) % 10]) + s[1:]
             otp = x.buf(s + b"\0")
         return "botpOCRAVerify", [otp] + a
-    sw = {"suite": OCRA_OK + OCRA_BAD, "q_len": [0, 1, 3, 4, 5, 8, 9, 16, 17, 80, 81, 129, HALF, SIZE_MAX], "t": [0, TIME_ERR], "key_len": [0, 1, 33]}
+    sw = {"suite": OCRA_OK + OCRA_BAD + OCRA_NOJ, "q_len": [0, 1, 3, 4, 5, 8, 9, 16, 17, 80, 81, 129, HALF, SIZE_MAX], "t": [0, TIME_ERR], "key_len": [0, 1, 33]}
     add("botpOCRARand", ocra_defaults, sw, ocra_expect, ocra_rand)
     add("botpOCRAVerify", ocra_defaults, dict(sw, wrong=[0, 1]), ocra_expect, ocra_verify)
 
